@@ -165,6 +165,7 @@ def t_singletons(T, tier):
 # ------------------------------------------------------------------ Grid._approx_check on opaque cells
 proj = {n: z3.Function('attr_' + n, V, V) for n in ('unit', 'value', 'latitude', 'longitude', 'tzinfo', 'date', 'time', 'trunc_us')}
 close = z3.Function('abs_diff_below_eps', V, V, B)
+elementwise_raises = z3.Function('elementwise_eq_raises_TypeError', V, V, B)
 NUM = ['int', 'float']
 
 
@@ -216,6 +217,10 @@ def _approx_world():
             elif it.ctx.branch(qb):
                 t = DT.eqv(a.term, proj['value'](b.term))
             else:
+                # builtin == on collections compares element by element: elements that are Quantities of different units raise TypeError (C20)
+                if it.ctx.branch(z3.And(KD.is_kind(a.term, ['list', 'dict']), KD.is_kind(b.term, ['list', 'dict']), KD.kind(a.term) == KD.kind(b.term),
+                                         elementwise_raises(a.term, b.term))):
+                    it.raise_('TypeError', 'Quantity units differ (inside a collection)')
                 t = DT.eqv(a.term, b.term)
             return it.wrap(t if op == 'Eq' else z3.Not(t))
         if isinstance(a, AbsDiff) and op == 'Lt':
@@ -300,7 +305,8 @@ def t_approx(T, tier, only_k1=None):
             v1 = it.ctx.fresh('v1', V)
             it.ctx.assume(KD.kind(v1) == KD.KID[k1])
             x = z3.Const('x!r', V)
-            it.ctx.assume(z3.ForAll([x], DT.eqv(x, x)))       # content equal to itself (NaN excluded)
+            it.ctx.assume(z3.ForAll([x], DT.eqv(x, x)))
+            it.ctx.assume(z3.ForAll([x], z3.Not(elementwise_raises(x, x))))      # a collection compared with itself: identical elements, no unit clash       # content equal to itself (NaN excluded)
             it.ctx.witness_fn = lambda model: {'kind': 'cells', 'k1': k1, 'k2': k1, 'same': True}
             cls = w.class_ref(gm, 'Grid')
             r = it.call(it.getattr(cls, '_approx_check'), [SVal(v1), SVal(v1)])
@@ -315,7 +321,7 @@ def t_grid_eq(T, tier):
     approx = z3.Function('approx_check', V, V, B)
     shapes = [(0, 1, 0), (1, 1, 1), (1, 2, 2), (0, 1, 2)]
     for (nm, nc, nr) in shapes:
-        for variant in ('same_shape', 'sparse_rows', 'other_not_grid', 'fewer_rows', 'other_meta_key', 'other_column'):
+        for variant in ('same_shape', 'sparse_rows', 'other_not_grid', 'fewer_rows', 'other_meta_key', 'other_column', 'other_colmeta_key'):
             w = World()
             KD.install(w)
             w.hooks['as_term'] = lambda it, v, sort: None
@@ -329,11 +335,11 @@ def t_grid_eq(T, tier):
                     return KD.NONE_C
                 raise OutOfSubset('cell %r' % (x,))
 
-            def mkgrid(it, name, nm, nc, nr, cls, mkeys=None, cols=None):
+            def mkgrid(it, name, nm, nc, nr, cls, mkeys=None, cols=None, cmkey='t'):
                 mkeys = mkeys or ['m%d' % i for i in range(nm)]
                 cols = cols or ['c%d' % i for i in range(nc)]
                 md = {k: SVal(it.ctx.fresh('%s_md_%s' % (name, k), V)) for k in mkeys}
-                colmeta = {c: {'t': SVal(it.ctx.fresh('%s_cm_%s' % (name, c), V))} for c in cols}
+                colmeta = {c: {cmkey: SVal(it.ctx.fresh('%s_cm_%s' % (name, c), V))} for c in cols}
                 rows = [{c: SVal(it.ctx.fresh('%s_r%d_%s' % (name, i, c), V)) for c in cols} for i in range(nr)]
                 return SObj(cls, {'metadata': md, 'column': colmeta, '_row': rows, '_index': None}), md, colmeta, rows
 
@@ -353,6 +359,11 @@ def t_grid_eq(T, tier):
                     b, bmd, bcm, brows = mkgrid(it, 'b', nm, nc, nr - 1, cls)
                 elif variant == 'other_meta_key':
                     b, bmd, bcm, brows = mkgrid(it, 'b', nm, nc, nr, cls, mkeys=['zz'] + ['m%d' % i for i in range(1, nm)] if nm else ['zz'])
+                elif variant == 'other_colmeta_key':
+                    # the same columns, each with as many metadata tags as on the other side, under another name
+                    if nc == 0:
+                        return
+                    b, bmd, bcm, brows = mkgrid(it, 'b', nm, nc, nr, cls, cmkey='zz')
                 elif variant == 'other_column':
                     b, bmd, bcm, brows = mkgrid(it, 'b', nm, nc, nr, cls, cols=['zz'] + ['c%d' % i for i in range(1, nc)])
                 else:
